@@ -57,14 +57,34 @@ func coqStrategy(s string) string {
 	return "Other"
 }
 
+// coqStr emits a plain identifier-like name as a Coq string literal (cheap to
+// type-check); anything else goes through vh.Str (byte list).
+func coqStr(s string) string {
+	for i := 0; i < len(s); i++ {
+		c := s[i]
+		if !(c >= 'a' && c <= 'z' || c >= 'A' && c <= 'Z' || c >= '0' && c <= '9' || c == '-' || c == '_') {
+			return vh.Str(s)
+		}
+	}
+	return "\"" + s + "\"%string"
+}
+
+func coqStrList(vs []string) string {
+	out := make([]string, len(vs))
+	for i, v := range vs {
+		out[i] = coqStr(v)
+	}
+	return vh.List(out)
+}
+
 func coqInfo(x strategy.Info) string {
-	return fmt.Sprintf("(mkInfo %s %s %s %s %s)", vh.Str(x.Nodename), vh.F64(x.Usage), vh.F64(x.Rate), vh.ZI(x.Capacity), vh.ZI(x.Count))
+	return fmt.Sprintf("(mkInfo %s %s %s %s %s)", coqStr(x.Nodename), vh.F64(x.Usage), vh.F64(x.Rate), vh.ZI(x.Capacity), vh.ZI(x.Count))
 }
 
 func coqPlan(m map[string]int) string {
 	items := []string{}
 	for _, k := range vh.SortedKeys(m) {
-		items = append(items, vh.Pair(vh.Str(k), vh.ZI(m[k])))
+		items = append(items, vh.Pair(coqStr(k), vh.ZI(m[k])))
 	}
 	return vh.List(items)
 }
@@ -147,7 +167,7 @@ func emit(r *vh.Run, c tcase) {
 		ins[i] = coqInfo(x)
 	}
 	term := fmt.Sprintf("(mkCase %s %s %s %s %s %s %s)", coqStrategy(c.Strategy), vh.ZI(c.Need), vh.ZI(c.Limit),
-		vh.List(ins), vh.ZI(c.Total), res, vh.StrList(after))
+		vh.List(ins), vh.ZI(c.Total), res, coqStrList(after))
 	type jinfo struct {
 		Name     string
 		Usage    float64
@@ -521,7 +541,7 @@ func TestStrategy(t *testing.T) {
 	}
 	r.Coq("From Verif Require Import Base.GoFloat Strategy.Model.", "Strategy.Model.case", "Strategy.Model.agree", okFn)
 	r.Extra("Close Scope Z_scope.") // Base.GoFloat opens it; vh.Str emits nat literals
-	r.Shard = 150
+	r.Shard = 250
 	g := gen{r}
 	for _, c := range corpus() {
 		emit(r, c)
